@@ -69,3 +69,110 @@ BATTERY = [
     "multiclass m",
     "class",
 ]
+
+
+# complete minimal sentences starting with a given kind (for callee placeholders)
+EXPAND = {
+    "LBrace": ["{1}", "{ }", "{ def x; }"], "LSquare": ["[1]"], "LParen": ["(x)", "(x 1)"],
+    "XCond": ["!cond(1: 1)"], "Bits": ["bits<1>"], "List": ["list<int>"],
+    "Class": ["class X;"], "Def": ["def x;"], "Defm": ["defm x : y;"], "Defset": ["defset int s = { }"],
+    "Defvar": ["defvar v = 1;"], "Dump": ["dump 1;"], "Foreach": ["foreach i = [1] in def x;"],
+    "If": ["if 1 then def x;"], "Let": ["let a = 1 in def x;", "let a = 1;"], "MultiClass": ["multiclass m { def x; }"],
+    "Include": ["include \"f\""], "Assert": ["assert 1, \"m\";"], "Colon": [": A"], "Less": ["<int a>", "<1>"],
+    "Id": ["x<1>", "x.y"], "IntVal": ["1...2", "1{2}"], "Field": ["field int f;"],
+    "Bit": ["bit b;"], "Int": ["int i;"], "String": ["string s;"],
+}
+
+# (prefix, suffix) text that leads the real parser into the rule function of a unit
+CONTEXT = {
+    "value": ("defvar v = ", ";"), "inner_value": ("defvar v = ", ";"), "simple_value": ("defvar v = ", ";"),
+    "name_value": ("def ", ";"), "inner_name_value": ("def ", ";"), "value_suffix": ("defvar v = x", ";"),
+    "range_list": ("defvar v = x{", "};"), "range_piece": ("defvar v = x{", "};"),
+    "slice_elements": ("defvar v = x[", "];"), "slice_element": ("defvar v = x[", "];"),
+    "bits": ("defvar v = ", ";"), "list": ("defvar v = ", ";"), "dag": ("defvar v = ", ";"),
+    "dagarg_list": ("defvar v = (op ", ");"), "dagarg": ("defvar v = (op ", ");"),
+    "identifier_or_class_value": ("defvar v = ", ";"), "bang_operator": ("defvar v = ", ";"),
+    "cond_operator": ("defvar v = ", ";"), "cond_clause": ("defvar v = !cond(", ");"),
+    "type": ("class C<", " a>;"), "bits_type": ("class C<", " a>;"), "list_type": ("class C<", " a>;"),
+    "class_ref": ("class C : ", ";"), "parent_class_list": ("class C ", ";"), "arg_value_list": ("def d : A<", ">;"),
+    "body": ("class C ", ""), "body_item": ("class C { ", " }"), "field_def": ("class C { ", " }"),
+    "field_let": ("class C { ", " }"), "record_body": ("class C ", ""),
+    "let_list": ("let ", " in def x;"), "let_item": ("let ", " in def x;"),
+    "template_arg_list": ("class C", ";"), "template_arg_decl": ("class C<", ">;"),
+    "foreach_iterator": ("foreach ", " in def x;"), "foreach_iterator_init": ("foreach i = ", " in def x;"),
+    "multi_class_statements": ("multiclass m { ", ""), "multi_class_statement": ("multiclass m { ", " }"),
+    "statement_list_block": ("defset int s = ", ""), "statement_list_single": ("let a = 1 in ", ""),
+}
+
+
+def candidates(names, unit, limit=4000):
+    """concrete texts around a counterexample's token kinds: every token either as its bare
+    lexeme or expanded to a minimal complete sentence starting with it; wrapped in the context
+    that reaches the unit's rule function"""
+    import itertools
+    pre, suf = CONTEXT.get(unit, ("", ""))
+    opts = []
+    for n in names:
+        o = [lexeme(n)] + EXPAND.get(n, [])
+        if n in BANG:
+            o.append("!" + BANG[n] + "(1)")
+        opts.append(o)
+    out = []
+    for combo in itertools.product(*opts):
+        out.append(pre + " ".join(c for c in combo if c != "") + suf)
+        if len(out) >= limit:
+            break
+    # also every proper prefix of the bare rendering (rules cut short by the end of input)
+    bare = [lexeme(n) for n in names]
+    for k in range(len(bare) + 1):
+        out.append(pre + " ".join(bare[:k]))
+        out.append(pre + " ".join(bare[:k]) + suf)
+        for j in range(k):       # and with one token dropped
+            out.append(pre + " ".join(bare[:j] + bare[j + 1:k]) + suf)
+    return list(dict.fromkeys(out))
+
+
+# a minimal sentence per nonterminal (callee placeholders in enumerated replays)
+MINSENT = {
+    "Value": ["1", "x"], "NameValue": ["x"], "InnerValue": ["1"], "InnerNameValue": ["x"], "SimpleValue": ["1"],
+    "Type": ["int"], "BitsType": ["bits<1>"], "ListType": ["list<int>"], "RangeList": ["1"], "RangePiece": ["1"],
+    "Statement": ["def x;"], "BlockOrStatement": ["{ }", "def x;"], "BracedStatements": ["{ }"],
+    "StatementListTop": ["def x;"], "ClassRef": ["A"], "ArgValueList": ["1"], "LetItem": ["a = 1"], "LetList": ["a = 1"],
+    "TemplateArgDecl": ["int a"], "TemplateArgList": ["<int a>"], "RecordBody": [";"], "ParentClassList": [": A"],
+    "Body": [";", "{ }"], "BodyItem": ["int f;"], "FieldDef": ["int f;"], "FieldLet": ["let f = 1;"],
+    "DagArg": ["x"], "DagArgList": ["x"], "SliceElement": ["1"], "SliceElements": ["1"], "ValueSuffix": [".f"],
+    "CondClause": ["1: 1"], "Bits": ["{1}"], "List": ["[1]"], "Dag": ["(x)"], "IdentifierOrClassValue": ["x"],
+    "BangOperator": ["!add(1)"], "CondOperator": ["!cond(1: 1)"], "MultiClassStatement": ["def x;"],
+    "MultiClassStatements": ["def x; }"], "ForeachIterator": ["i = [1]"], "ForeachIteratorInit": ["[1]"],
+    "Include": ["include \"f\""], "Class": ["class X;"], "Def": ["def x;"], "Defm": ["defm x : y;"],
+    "Defset": ["defset int s = { }"], "Defvar": ["defvar v = 1;"], "Dump": ["dump 1;"],
+    "Foreach": ["foreach i = [1] in def x;"], "If": ["if 1 then def x;"], "Let": ["let a = 1 in def x;"],
+    "MultiClass": ["multiclass m { def x; }"], "Assert": ["assert 1, \"m\";"],
+}
+
+
+def unit_alphabet(classes):
+    """lexemes for the symbol classes of a unit's NFA (gen_rules.compile_unit)"""
+    out = []
+    for c in classes:
+        if c[0] == "T":
+            ks = sorted(c[1])
+            if len(ks) > 3:
+                ks = ks[:2]
+            out += [lexeme(k) for k in ks]
+        else:
+            out += MINSENT.get(c[1], [])
+    return list(dict.fromkeys(x for x in out if x))
+
+
+def enumerate_unit(unit, classes, maxlen=6, limit=30000):
+    import itertools
+    pre, suf = CONTEXT.get(unit, ("", ""))
+    alpha = unit_alphabet(classes)
+    out = []
+    for L in range(0, maxlen + 1):
+        for combo in itertools.product(alpha, repeat=L):
+            out.append(pre + " ".join(combo) + suf)
+            if len(out) >= limit:
+                return out
+    return out
